@@ -4,6 +4,8 @@ from core import Case
 from . import wiregen as W
 
 ID = "C04"
+# theorems of Props/Tables.lean over the tables TRANSLATED from /repo/src and libccp's headers on every run (DESIGN 11.7)
+TABLE_THEOREMS = ['src_msgTypes_eq', 'msgtypes_shared_with_libccp']
 THEOREMS = [
     "Portus.C04.from_buf_no_panic", "Portus.C04.from_buf_progress",
     "Portus.C04.create_only_when_create", "Portus.C04.measure_only_when_measure",
